@@ -1,6 +1,7 @@
 import PharmpyProofs.C05.MatrixLemmas
 import PharmpyProofs.C05.OrderLemmas
 import PharmpyProofs.C05.DictLemmas
+import PharmpyProofs.C05.RelabelLemmas
 /-
   C05 helper lemmas that sit directly under the property theorems.
 -/
